@@ -58,7 +58,7 @@ EXPECTED_PROBES = ["probe.step_completed", "probe.breakpoint_hit", "probe.pause_
                    "probe.step_hit_end_of_run", "probe.non_one_shot_refired", "probe.peek_or_find",
                    "probe.reset_with_source", "probe.metric_breakpoint_on_zero", "probe.breakpoint_added_from_hook",
                    "probe.reset_after_fast_loop_run", "probe.paused_at_final_delivery",
-                   "probe.reset_from_a_midrun_pause", "probe.reset_with_probe_class"]
+                   "probe.reset_from_a_midrun_pause", "probe.reset_with_probe_class", "probe.reset_rerun_without_initial_pause", "probe.pause_requested_from_time_hook", "probe.reset_before_first_run"]
 SHRINK_SKIP = ("n_entities", "n_kinds")
 
 
@@ -72,6 +72,9 @@ def gen(rng, tier):
     prog["stateless"] = stateless
     if stateless and rng.random() < 0.4:
         prog["post_run_cancel"] = [rng.randrange(1000) for _ in range(rng.randint(1, 3))]
+    if stateless:
+        prog["reset_pause_first"] = rng.random() < 0.5
+        prog["reset_before_first_run"] = rng.random() < 0.25
     if stateless and rng.random() < 0.4:
         prog["reset_midrun"] = rng.choice([1, 2, 3, 5, 8, 13, 21])
     if stateless and rng.random() < 0.5:
@@ -110,7 +113,7 @@ def gen(rng, tier):
         elif r < 0.40:
             ops.append({"op": "resume"})
         elif r < 0.50:
-            ops.append({"op": "pause_at", "index": rng.randint(1, 40)})
+            ops.append({"op": "pause_at", "index": rng.randint(1, 40), "via_time_hook": rng.random() < 0.4})
         elif r < 0.58:
             ops.append({"op": "bp_count", "count": rng.randint(1, 12), "one_shot": rng.random() < 0.7})
         elif r < 0.65:
@@ -285,6 +288,17 @@ def run_controlled(sc, *, trace=False, tracing=False):
             ent.seen_count = 0
         hook_id = ctl.on_event(hook)
         hook_removed = False
+        # pause() requested from a TIME hook: it fires (when the clock moves) as part of processing delivery n+1, so the
+        # pause takes effect right after that delivery - exactly like a request made from the event hook of n+1, which
+        # stays armed as the fall-back for deliveries that do not move the clock
+        via_time_hook: set[int] = set()
+
+        def time_hook(_t):
+            if not hook_removed and seen["n"] + 1 in via_time_hook:
+                stats["took_effect"].add("pause_from_time_hook")
+                ctl.pause()
+
+        ctl.on_time_advance(time_hook)
 
         def processed():
             return ctl.get_state().events_processed
@@ -297,6 +311,9 @@ def run_controlled(sc, *, trace=False, tracing=False):
             now_n = processed()
             if hook_removed:
                 return
+            if now_n != seen["n"]:
+                raise Bad("events-processed-ne-deliveries-observed",
+                          f"get_state().events_processed={now_n} but the event hook saw {seen['n']} deliveries")
             # any delivery strictly inside the segment that satisfied an active breakpoint must have paused
             seg_bps.update(added_in_segment)
             added_in_segment.clear()
@@ -376,6 +393,8 @@ def run_controlled(sc, *, trace=False, tracing=False):
                 _drop_one_shots(active_bps, ctl, mirror_true, processed(), before, hook_removed)
             elif k == "pause_at":
                 pause_at.add(processed() + op["index"])
+                if op.get("via_time_hook"):
+                    via_time_hook.add(processed() + op["index"])
             elif k == "bp_from_hook":
                 if not hook_removed:
                     hook_bps.setdefault(processed() + op["after"], []).append(op)
@@ -536,6 +555,8 @@ def run(sc):
             r = _reset_check(sc)
             counters["probe.reset_rerun"] = 1
             counters["probe.reset_with_source"] = int(bool(sc.get("source")))
+            counters["probe.reset_rerun_without_initial_pause"] = int(not sc.get("reset_pause_first", True))
+            counters["probe.reset_before_first_run"] = int(bool(sc.get("reset_before_first_run")))
             counters["probe.reset_with_probe_class"] = int((sc.get("source") or {}).get("probe") == "probe_class")
             counters["probe.reset_from_a_midrun_pause"] = int(bool(sc.pop("_midrun_paused", False)))
             counters["probe.reset_after_fast_loop_run"] = int(bool(sc.get("reset_first_fast")) and sc.get("end") is not None)
@@ -564,6 +585,7 @@ def run(sc):
     counters["probe.metric_breakpoint_on_zero"] = int(any(o["op"] == "bp_metric" and o.get("cmp") in ("le", "eq", "lt") and o["ge"] <= 1
                                                            for o in sc.get("ctl", [])))
     counters["probe.breakpoint_added_from_hook"] = int("bp_from_hook" in te)
+    counters["probe.pause_requested_from_time_hook"] = int("pause_from_time_hook" in te)
     counters["probe.paused_at_final_delivery"] = int("paused_at_final_delivery" in te)
     for k in te:
         counters[f"ctl.{k}"] = 1
@@ -585,6 +607,10 @@ def _reset_check(sc):
     # run 1 either with control attached (instrumented loop) or untouched (fast loop; sim.control is not even
     # looked at before it ends) -- which loop ran first must not matter to reset()+run()
     fast_first = bool(sc.get("reset_first_fast")) and sc.get("end") is not None
+    if sc.get("reset_before_first_run"):
+        # a replication loop starts every run, also the first, with reset(): nothing may get lost by that
+        fast_first = False
+        sim.control.reset()
     if not fast_first:
         sim.control.on_event(tap)
     sim.run()
@@ -619,7 +645,8 @@ def _reset_check(sc):
         del pr.tlog[:]
         sim.control.reset()
     probe_mark = len(pdata.values) if pdata is not None else 0
-    sim.control.pause()
+    if sc.get("reset_pause_first", True):
+        sim.control.pause()         # (pausing before the first event re-aligns engine bookkeeping; half of the runs go without)
     sim.run()
     if sim.control.is_paused:
         st = sim.control.get_state()
